@@ -54,6 +54,7 @@ ShapesFill == {<<1792, 1792, 1792, 1792>>}
 ShapesFill5 == {<<1792, 1792, 1792, 1792, 1792>>}
 BudgetsR == {0, -1}
 ModesAlo == {<<"alo", 1>>, <<"alo", 2>>}
+ModesAlo2 == {<<"alo", 2>>}
 
 (* Avoidance guards for recorded findings (CONSTRAINT).                                            *)
 (* KF-ENG-ALO-RECLAIM-NOT-DURABLE (open, C12): in AtLeastOnce mode blocks are marked consumed from   *)
